@@ -1,3 +1,4 @@
+import math
 from circus.commands.base import Command
 from circus.exc import ArgumentError, MessageError
 from circus.util import to_signum
@@ -113,4 +114,9 @@ class Kill(Command):
             try:
                 props['graceful_timeout'] = float(props['graceful_timeout'])
             except (TypeError, ValueError):
+                raise MessageError('graceful_timeout invalid')
+            if math.isnan(props['graceful_timeout']) or \
+                    math.isinf(props['graceful_timeout']):
+                # (neither the wait loop nor the SIGKILL test terminate
+                # sensibly on these)
                 raise MessageError('graceful_timeout invalid')
